@@ -6,17 +6,19 @@ package main
 //   stream <hex>                      set the stream; read it through a reader that hands out the whole stream at once
 //   parts j<hex> m<hex> j<hex> …      same, the stream is the concatenation; the split into junk / messages is a CLAIM that
 //                                     the monitor verifies itself (well-formed frames, junk without "8=") before it demands exactness
-//   cuts <sizes> <eofd>               read the current stream through a reader that serves exactly these chunks
+//   cuts <sizes> <eofd> [eof|io]      read the current stream through a reader that serves exactly these chunks
 //                                     (sizes: csv of n or nxk = k chunks of n bytes; a remainder is one last chunk; 0 = a (0,nil) read;
 //                                     a chunk larger than the room asked for is served in several reads);
-//                                     eofd=y: the last bytes come together with io.EOF
-//   loop <sizes> <eofd>               same through connection.go readLoop (frames delivered on the channel; the error is only logged)
+//                                     eofd=y: the last bytes come together with the final error;
+//                                     io: the reader ends with a connection error instead of io.EOF (default eof)
+//   loop <sizes> <eofd> [eof|io]      same through connection.go readLoop (frames delivered on the channel; the error is only logged)
 // Observation:
-//   frames <hex>,<hex>,…|- end eof|length|panic|hang
+//   frames <hex>,<hex>,…|- end eof|io|length|panic|hang
 //   (loop: frames … end closed)
-//   end: eof = io.EOF from the reader, length = any other error (jumpLength), panic, hang = no result in 20 s.
+//   end: eof = io.EOF from the reader, io = the reader's own error, length = any other error (jumpLength), panic, hang = no result in 20 s.
 
 import (
+	"errors"
 	"fmt"
 	"io"
 	"strconv"
@@ -29,12 +31,15 @@ import (
 type chunkReader struct {
 	chunks    [][]byte
 	eofd      bool
+	endErr    error
 	zeroReads int
 }
 
+var errVerifIO = errors.New("read tcp: connection reset by peer")
+
 func (r *chunkReader) Read(p []byte) (int, error) {
 	if len(r.chunks) == 0 {
-		return 0, io.EOF
+		return 0, r.endErr
 	}
 	if len(p) == 0 {
 		// a zero-length read makes no progress: the parser would spin (the model calls this a fault)
@@ -56,7 +61,7 @@ func (r *chunkReader) Read(p []byte) (int, error) {
 		r.chunks[0] = c[k:]
 	}
 	if r.eofd && len(r.chunks) == 0 {
-		return k, io.EOF
+		return k, r.endErr
 	}
 	return k, nil
 }
@@ -122,7 +127,7 @@ func hexList(fr [][]byte) string {
 }
 
 // runParser drives the real parser until its first error, as readLoop does.
-func runParser(chunks [][]byte, eofd bool) string {
+func runParser(chunks [][]byte, eofd bool, endErr error) string {
 	type result struct{ s string }
 	ch := make(chan result, 1)
 	go func() {
@@ -134,12 +139,14 @@ func runParser(chunks [][]byte, eofd bool) string {
 					end = "panic"
 				}
 			}()
-			vp := quickfix.VerifNewParser(&chunkReader{chunks: chunks, eofd: eofd})
+			vp := quickfix.VerifNewParser(&chunkReader{chunks: chunks, eofd: eofd, endErr: endErr})
 			for {
 				m, err := vp.ReadMessage()
 				if err != nil {
 					if err == io.EOF {
 						end = "eof"
+					} else if err == errVerifIO {
+						end = "io"
 					} else {
 						end = "length"
 					}
@@ -158,7 +165,7 @@ func runParser(chunks [][]byte, eofd bool) string {
 	}
 }
 
-func runLoop(chunks [][]byte, eofd bool) string {
+func runLoop(chunks [][]byte, eofd bool, endErr error) string {
 	ch := make(chan string, 1)
 	go func() {
 		defer func() {
@@ -166,7 +173,7 @@ func runLoop(chunks [][]byte, eofd bool) string {
 				ch <- "frames - end panic"
 			}
 		}()
-		fr := quickfix.VerifReadLoop(&chunkReader{chunks: chunks, eofd: eofd})
+		fr := quickfix.VerifReadLoop(&chunkReader{chunks: chunks, eofd: eofd, endErr: endErr})
 		ch <- "frames " + hexList(fr) + " end closed"
 	}()
 	select {
@@ -191,7 +198,7 @@ func (f *frameImpl) exec(op string) string {
 		switch {
 		case len(w) == 2 && w[0] == "stream":
 			f.stream = unhx(w[1])
-			return runParser(copyChunks([][]byte{f.stream}), false)
+			return runParser(copyChunks([][]byte{f.stream}), false, io.EOF)
 		case len(w) >= 1 && w[0] == "parts":
 			var s []byte
 			for _, t := range w[1:] {
@@ -201,11 +208,22 @@ func (f *frameImpl) exec(op string) string {
 				s = append(s, unhx(t[1:])...)
 			}
 			f.stream = s
-			return runParser(copyChunks([][]byte{f.stream}), false)
-		case len(w) == 3 && w[0] == "cuts":
-			return runParser(copyChunks(cutStream(f.stream, parseSizes(w[1]))), w[2] == "y")
-		case len(w) == 3 && w[0] == "loop":
-			return runLoop(copyChunks(cutStream(f.stream, parseSizes(w[1]))), w[2] == "y")
+			return runParser(copyChunks([][]byte{f.stream}), false, io.EOF)
+		case (len(w) == 3 || len(w) == 4) && (w[0] == "cuts" || w[0] == "loop"):
+			var endErr error = io.EOF
+			if len(w) == 4 {
+				switch w[3] {
+				case "io":
+					endErr = errVerifIO
+				case "eof":
+				default:
+					panic("bad op " + op)
+				}
+			}
+			if w[0] == "cuts" {
+				return runParser(copyChunks(cutStream(f.stream, parseSizes(w[1]))), w[2] == "y", endErr)
+			}
+			return runLoop(copyChunks(cutStream(f.stream, parseSizes(w[1]))), w[2] == "y", endErr)
 		}
 		panic("bad op " + op)
 	})
@@ -578,7 +596,13 @@ func frameGen(r *rng, tier string, idx int, o *out, do func(string) string) stri
 	} else {
 		o.kind(fmt.Sprintf("frames:%d", nframes))
 	}
-	eofd := func() string { return yn(r.chance(1, 4)) }
+	eofd := func() string {
+		e := yn(r.chance(1, 4))
+		if r.chance(1, 6) {
+			e += " io" // the reader ends with a connection error instead of io.EOF
+		}
+		return e
+	}
 	emit := func(pk string, op string) {
 		o.kind("partition:" + pk)
 		do(op)
